@@ -118,6 +118,15 @@ def build_pool(seed):
         {'type': 'ground'}],
         'solution': {'type': 'real', 'precision': 4, 'voltages': [{'name': 'Ra', 'reverse': True}, {'name': 'G'}],
                      'currents': [{'name': 'Ra'}], 'powers': [{'name': 'G', 'reverse': True}]}}
+    # periodic functions that differ in one constructor argument only (period / amplitude / phase / offset)
+    pool['pf0'] = ['rect', 2.0, 1.5, 0.5, 0.0]
+    pool['pf1'] = ['rect', 2.0, 1.5, 0.5, 0.75]         # other offset
+    pool['pf2'] = ['rect', 5.0, 1.5, 0.5, 0.0]          # other period
+    pool['pf3'] = ['tri', 2.0, -1.5, 0.5, 0.25]
+    pool['pf4'] = ['saw', 2.0, 1.5, -0.5, 0.25]
+    pool['desc1'] = [{'type': 'resistor', 'id': 'R1', 'N1': '0', 'N2': '1', 'R': 22.0},
+                     {'type': 'voltage_source', 'id': 'U', 'N1': '1', 'N2': '0', 'V': {'real': 3.0, 'imag': 0.0}},
+                     {'type': 'conductor', 'id': 'G', 'N1': '1', 'N2': '0', 'G': 0.25}]
     pool['wlist0'] = [0.0, 1.0, 50.0]
     pool['tgrid'] = np.linspace(0.0, 0.5, 40)
     return pool
@@ -133,7 +142,9 @@ def library_defaults():
               'CircuitCalculator.Network.NodalAnalysis.solution',
               'CircuitCalculator.Circuit.circuit', 'CircuitCalculator.Circuit.state_space_model', 'CircuitCalculator.Circuit.impedance',
               'CircuitCalculator.Circuit.solution', 'CircuitCalculator.Circuit.transformers', 'CircuitCalculator.Circuit.components',
-              'CircuitCalculator.dump_load', 'CircuitCalculator.Circuit.dump_load'):
+              'CircuitCalculator.dump_load', 'CircuitCalculator.Circuit.dump_load',
+              'CircuitCalculator.SignalProcessing.periodic_functions', 'CircuitCalculator.SignalProcessing.state_space_model',
+              'CircuitCalculator.Utils', 'CircuitCalculator.Network.network'):
         mod = importlib.import_module(m)
         for name, f in inspect.getmembers(mod, inspect.isfunction):
             if f.__module__ == m and (f.__defaults__ or f.__kwdefaults__):
@@ -162,11 +173,55 @@ def circuit_sol_fp(sol, circuit, t=None):
         if callable(x):
             return x(t)
         return x
+
+    def get(getter, key):
+        """the result, after checking that it is not an alias of the solution object's own state: the caller scribbles over what it
+        was handed (arrays, lists, dicts edited in place) and asks again"""
+        r = ev(getter(key))
+        f = fp(r)
+        scribble(r)
+        f2 = fp(ev(getter(key)))
+        if f2 != f:
+            out.append(f'ALIAS:{getattr(getter, "__name__", "getter")}({key!r}): editing the returned object in place changes what the same call returns '
+                       f'afterwards ({f[:60]} -> {f2[:60]})')
+        return f
     for n in net.node_labels:
-        out.append(fp(ev(sol.get_potential(n))))
+        out.append(get(sol.get_potential, n))
     for b in net.branches:
-        out.append(fp([ev(sol.get_voltage(b.id)), ev(sol.get_current(b.id)), ev(sol.get_power(b.id))]))
+        out.append(fp([get(sol.get_voltage, b.id), get(sol.get_current, b.id), get(sol.get_power, b.id)]))
     return out
+
+
+PROTECTED = []      # arrays of the shared pool (set by run_op)
+
+
+def scribble(x, depth=0):
+    """edit a returned object in place wherever Python allows it"""
+    if depth > 4:
+        return
+    if isinstance(x, np.ndarray):
+        if any(np.shares_memory(x, q) for q in PROTECTED):
+            return          # the caller's own argument handed back (e.g. the time grid): editing it would be the CALLER changing its input
+        if x.flags.writeable and x.size and x.dtype != object:
+            try:
+                x *= 0.5
+                x += 1
+            except Exception:  # noqa: BLE001
+                pass
+        elif x.dtype == object:
+            for v in x.ravel():
+                scribble(v, depth + 1)
+    elif isinstance(x, list):
+        for v in x:
+            scribble(v, depth + 1)
+        x.append('scribbled')
+    elif isinstance(x, dict):
+        for v in list(x.values()):
+            scribble(v, depth + 1)
+        x['scribbled'] = True
+    elif isinstance(x, tuple):
+        for v in x:
+            scribble(v, depth + 1)
 
 
 def run_op(pool, op):
@@ -182,6 +237,7 @@ def run_op(pool, op):
     from CircuitCalculator.Circuit import impedance as cimp
     from CircuitCalculator.Circuit.state_space_model import state_space_model
     name, args = op[0], op[1:]
+    PROTECTED[:] = [v for v in pool.values() if isinstance(v, np.ndarray)]
     try:
         if name == 'solve':
             net = pool[args[0]]
@@ -259,6 +315,28 @@ def run_op(pool, op):
             c = pool[args[0]]
             net = cc.transform_circuit(c, 0.0)
             return fp(cimp.open_circuit_impedance(c, net.node_labels[0], net.node_labels[-1], np.array([0.0, 3.0])))
+        if name == 'fourier':
+            from CircuitCalculator.SignalProcessing.periodic_functions import periodic_function, fourier_series
+            wt, T, A, ph, off = pool[args[0]]
+            fs = fourier_series(periodic_function(wt)(period=T, amplitude=A, phase=ph, offset=off))
+            return fp([[fs.amplitude(n), fs.phase(n), fs.a(n), fs.b(n)] for n in range(0, 5)])
+        if name == 'load_file':
+            # the same path is written with different descriptions during one session
+            import json as _json
+            import tempfile
+            d = os.path.join(tempfile.gettempdir(), f'c20_files_{os.getpid()}')
+            os.makedirs(d, exist_ok=True)
+            path = os.path.join(d, 'network.json')
+            with open(path, 'w') as f:
+                _json.dump(pool[args[0]], f)
+            return fp(loaders.load_network_from_json(path))
+        if name == 'dump_load_file':
+            import tempfile
+            d = os.path.join(tempfile.gettempdir(), f'c20_files_{os.getpid()}')
+            os.makedirs(d, exist_ok=True)
+            path = os.path.join(d, 'document.' + args[1])
+            dump_load.dump(path, pool[args[0]])
+            return fp(dump_load.load(path))
         if name in ('create_schematic', 'simulate', 'schematic_roundtrip'):
             import matplotlib.pyplot as plt
             from CircuitCalculator.SimpleSimulation.schematic import create_schematic
@@ -307,6 +385,9 @@ def all_ops():
     ops += [['nssm', 0], ['nssm', 1]]
     for d in ('sdesc0', 'sdesc1'):
         ops += [['create_schematic', d], ['simulate', d], ['schematic_roundtrip', d]]
+    ops += [['fourier', f'pf{k}'] for k in range(5)]
+    ops += [['load_file', 'desc0'], ['load_file', 'desc1'], ['dump_load_file', 'doc0', 'json'], ['dump_load_file', 'flat0', 'json'],
+            ['dump_load_file', 'doc0', 'yaml']]
     return ops
 
 
@@ -364,6 +445,11 @@ def examine(ctx, pool_seed, hist_seed, length, must=()):
         r = run_op(pool, op)
         want = iso[json.dumps(op)]
         rep = dict(rep_base, step=step, op=op, history_prefix=history[:step + 1])
+        if 'ALIAS:' in r:
+            # observed, not judged: the property is about what the LIBRARY's calls do; a caller who edits a returned array in place and
+            # thereby changes a later answer (on the unchanged tree: the time axis of TransientSolution is the caller's own `tin` array)
+            # is outside it.  The scribbling itself still serves the comparison with the isolated run.
+            ctx.count('returned-object-aliases-state(observed, not judged):' + op[0])
         if r != want:
             # minimise: shortest prefix ending in op that still differs is searched by replaying with ops removed
             small = minimise(pool_seed, history[:step + 1], want)
